@@ -219,8 +219,8 @@ struct C04World: World {
       const int got_lg = un.get_lg_config_k();
       ctx.require(got_lg <= lg_max, "C04|lg_k-above-lg_max_k", std::to_string(got_lg));
       S r = un.get_result(ds::HLL_8);
-      // after reset() the gadget keeps a reduced lg_k on the pinned tree (raw items then promote it at that size): lg_k is not judged after a reset
-      if (!after_reset) ctx.require(r.get_lg_config_k() == expect_lg && got_lg == expect_lg, "C04|result-lg_k", "result lg_k=" + std::to_string(r.get_lg_config_k()) + " union lg_k=" + std::to_string(got_lg) + " expected " + std::to_string(expect_lg) + std::string(" after ") + after);
+      // a reset union is a new union: lg_k is judged against the inputs since the reset (the pinned tree kept a reduced lg_k across reset(); repaired, DESIGN 7 F-r7c)
+      (void)after_reset; ctx.require(r.get_lg_config_k() == expect_lg && got_lg == expect_lg, "C04|result-lg_k", "result lg_k=" + std::to_string(r.get_lg_config_k()) + " union lg_k=" + std::to_string(got_lg) + " expected " + std::to_string(expect_lg) + std::string(" after ") + after);
       check_content(ctx, r, model, "C04", std::string("union result after ") + after, false);
       ctx.require(un.is_empty() == model.empty(), "C04|union-emptiness", "");
     };
@@ -264,7 +264,7 @@ struct C04World: World {
           if (mode_of(r) == 2) ctx.require(close(r.get_composite_estimate(), c, 1e-9), "C04|result-composite-differs-from-union", hexd(r.get_composite_estimate()) + " vs " + hexd(c));
           verify("read"); last_was_merge = false; break;
         }
-        case U_RESET: { un.reset(); model.clear(); after_reset = true; hll_inputs = 0; delivered.clear(); verify("reset"); last_was_merge = false; break; }
+        case U_RESET: { un.reset(); model.clear(); after_reset = true; expect_lg = lg_max; hll_inputs = 0; delivered.clear(); verify("reset"); last_was_merge = false; break; }
         default: break;
       }
       ctx.t(static_cast<u64>(model.size())); ctx.t(static_cast<u64>(un.get_lg_config_k()));
